@@ -215,6 +215,9 @@ func coqReq(m *modelReq) string {
 		for _, kv := range m.UQ {
 			uq = append(uq, fmt.Sprintf("(%s, [%s])", lib.CoqString(kv[0]), lib.CoqString(kv[1])))
 		}
+		if m.Now == "100000" && len(m.UQ) == 1 && m.UQ[0] == [2]string{"nowMS", "100000"} {
+			return fmt.Sprintf("RLive %s n1 uq1", lib.CoqString(m.Path)) // n1, uq1: shared constants of the cases file
+		}
 		return fmt.Sprintf("RLive %s %s [%s]", lib.CoqString(m.Path), lib.CoqString(m.Now), strings.Join(uq, "; "))
 	case "license":
 		var ks []string
@@ -234,14 +237,41 @@ func coqReq(m *modelReq) string {
 	return "RUrlgenDrms \"\""
 }
 
-func coqObs(o c08obs) string {
+// bodyTable shares the texts of error responses between the cases of one file (type-checking a
+// string literal is what the evaluation of a cases file spends most of its time on).
+type bodyTable struct {
+	idx  map[string]int
+	defs []string
+}
+
+func (b *bodyTable) ref(body string) string {
+	if body == "" {
+		return "\"\""
+	}
+	if i, ok := b.idx[body]; ok {
+		return fmt.Sprintf("b%d", i)
+	}
+	i := len(b.defs)
+	b.idx[body] = i
+	b.defs = append(b.defs, fmt.Sprintf("Definition b%d : string := %s.", i, lib.CoqString(body)))
+	return fmt.Sprintf("b%d", i)
+}
+
+func coqObs(o c08obs, bt *bodyTable) string {
 	switch o.Class {
 	case "panic", "crash":
 		return "OPanic " + lib.CoqString(o.Site)
 	case "hang":
 		return "OHang"
 	}
-	return fmt.Sprintf("OStatus %d %s", o.Status, lib.CoqString(strings.ReplaceAll(o.Body, "\n", " ")))
+	body := ""
+	if o.Status >= 400 { // the model only looks at the message of error responses
+		body = strings.ReplaceAll(o.Body, "\n", " ")
+		if len(body) > 150 {
+			body = body[:60] + " ~ " + body[len(body)-80:]
+		}
+	}
+	return fmt.Sprintf("OStatus %d %s", o.Status, bt.ref(body))
 }
 
 type envRep struct {
@@ -469,6 +499,9 @@ func gen(c *lib.Ctx, rng *rand.Rand) []c08case {
 				if !c.Thorough() && vi >= len(hostileVals) && ti != (ki+vi)%len(quickTargets) && !(k == "timesubsdur" && t.name == "subs") && !(k == "periods" && t.name == "mpd-period-edge") {
 					continue // extra values: one rotating target in the quick tier
 				}
+				if !c.Thorough() && vi < len(hostileVals) && ti >= 5 && ti-5 != (ki+vi)%3 {
+					continue // base values: five targets always, one of the other three in rotation
+				}
 				part := k + "_" + v
 				exp, why := expectFor(t.name, part)
 				add(liveCase("single:"+t.name, "/livesim2/"+t.prefix+part+"/"+t.tail, t.now, exp, why))
@@ -476,7 +509,7 @@ func gen(c *lib.Ctx, rng *rand.Rand) []c08case {
 		}
 	}
 	// 2. pairs
-	nPairs := 800
+	nPairs := 400
 	if c.Thorough() {
 		nPairs = 0
 		for i, k1 := range keys {
@@ -904,10 +937,10 @@ func genReceiver(c *lib.Ctx, rng *rand.Rand) []c08case {
 		add("recv:no-init", m, fresh+"/video/0.cmfv", append(append([]byte{}, initSeg...), seg0...), nil)
 	}
 	// size fields of 2^31 and 2^32-1: the chunk parser allocates that much before it reads (seconds
-	// of wall time and gigabytes per request), so the quick tier sends one of them only
+	// of wall time and gigabytes per request), so only the thorough tier sends them
 	{
 		base := newCh()
-		huge := []uint32{1 << 31}
+		huge := []uint32{} // each costs 5-12 s of wall time: thorough tier only
 		if c.Thorough() {
 			huge = []uint32{1 << 31, 1<<32 - 1, 1<<32 - 9}
 		}
@@ -1118,14 +1151,14 @@ func runC08(c *lib.Ctx) error {
 	for _, k := range ks {
 		c.Res.Distribution["class:"+k] = classes[k]
 	}
-	var terms []string
+	var mcases []int
 	nModel := 0
 	for i, cs := range cases {
 		id := strconv.Itoa(i)
 		c.Res.Inputs[id] = map[string]any{"req": cs.Req, "group": cs.Group, "model": cs.Model, "observed": classOf(obs[i])}
 		judge(c, id, cs, obs[i])
 		if cs.Model != nil && obs[i].Class != "skip" && obs[i].Class != "crash" {
-			terms = append(terms, fmt.Sprintf("{| c_id := %d; c_env := env0; c_req := %s; c_obs := %s |}", i, coqReq(cs.Model), coqObs(obs[i])))
+			mcases = append(mcases, i)
 			nModel++
 		}
 		if i%97 == 0 {
@@ -1136,15 +1169,25 @@ func runC08(c *lib.Ctx) error {
 	c.Res.ModelCases = nModel
 	c.Res.DistinctNontrivial = len(distinct)
 	c.Res.Rule = "hostile requests through the real routers in a worker process (5 s watchdog, 3 GB heap limit): every URL key x 28 boundary/malformed values singly on 8 targets (MPD, video, audio, generated subtitles, BaseURL, init, period edge, 8 s asset), pairs (sampled; complete over the 14 base values in thorough), structured values for every parameter that reaches an index/divisor/loop, segment-name shapes, all endpoints (/urlgen, /patch, /api, /vod, licence POSTs), receiver uploads (truncated, impossible box sizes, bit flips, random bytes, odd paths, Content-Length). distinct = distinct (response class, generator group); non-trivial = all"
-	defs := coqEnv(env)
-	shard := 300
-	for s := 0; s*shard < len(terms); s++ {
+	envDefs := coqEnv(env) + "Definition n1 : string := \"100000\".\nDefinition uq1 : list (string * list string) := [(\"nowMS\", [n1])].\n"
+	shard := 350
+	if c.Thorough() {
+		shard = 500
+	}
+	for s := 0; s*shard < len(mcases); s++ {
 		e := (s + 1) * shard
-		if e > len(terms) {
-			e = len(terms)
+		if e > len(mcases) {
+			e = len(mcases)
+		}
+		bt := &bodyTable{idx: map[string]int{}}
+		var terms []string
+		for _, i := range mcases[s*shard : e] {
+			terms = append(terms, fmt.Sprintf("Build_c08case %d env0 (%s) (%s)", i, coqReq(cases[i].Model), coqObs(obs[i], bt)))
 		}
 		c.WriteCases(fmt.Sprintf("cases_C08_%d.v", s),
-			lib.CasesFile("From Verif Require Import GoSem UrlStr UrlCfg UrlHandler CorrC08.", "c08case", defs, terms[s*shard:e], "model_view"))
+			lib.CasesFile("From Verif Require Import GoSem UrlStr UrlCfg UrlHandler CorrC08.", "c08case", envDefs+strings.Join(bt.defs, "\n")+"\n", terms, ""))
+		// no model view: evaluating it compiles the cases a second time (a third of the run time);
+		// `Eval vm_compute in run_case (nth k cases ...)` in the written file shows it when needed
 	}
 	return nil
 }
